@@ -245,6 +245,99 @@ def stateful_reuse(ctx, corr):
     corr.tag('stateful-reuse', len(seq))
 
 
+E2E_POOL = [('a b', 'ab'), ('a  b', 'a b'), ('abc', 'a...'), ("'a'", 'a'), ('a', "'a'"), ('a\n\nb', 'a\n<BLANKLINE>\nb'), ('a b', 'a b'),
+            ('ab', 'a b'), ('a-x-b', 'a...b'), ('x', 'y'), ('a \nb', 'a\nb'), ('a\tb', 'ab'), ('a   b', 'a\nb'), ('"q"', 'q')]
+
+
+def e2e_inline(ctx, corr):
+    """the flags as the CHECKER sees them when they are set by directives of a running doctest: a one-statement doctest
+    prints `got`, `want` is underneath, one flag is set INLINE (on the statement) or by a BLOCK directive, on top of user
+    default options; the verdict of DocTest.run must be the model's check_output under the resulting flags"""
+    import warnings as _w
+    from xdoctest import core
+    rng = ctx.sub_rng('e2e_inline')
+    names = ['ELLIPSIS', 'NORMALIZE_WHITESPACE', 'IGNORE_WHITESPACE', 'NORMALIZE_REPR', 'DONT_ACCEPT_BLANKLINE']
+    base = {'ELLIPSIS': True, 'NORMALIZE_WHITESPACE': True, 'IGNORE_WHITESPACE': False, 'NORMALIZE_REPR': True, 'DONT_ACCEPT_BLANKLINE': False}
+    cases = []
+    for _ in range(260 if ctx.quick else 4000):
+        got, want = rng.choice(E2E_POOL)
+        flag = rng.choice(names)
+        val = rng.random() < 0.5
+        where = rng.choice(['inline', 'inline', 'block'])
+        defaults = rng.choice([{}, {}, {'IGNORE_WHITESPACE': False}, {rng.choice(names): rng.random() < 0.5}])
+        cases.append((got, want, flag, val, where, defaults))
+    lines = []
+    for got, want, flag, val, where, defaults in cases:
+        fl = dict(base)
+        fl.update(defaults)
+        fl[flag] = val
+        lines.append('check_output\t%s\t%s\t%s' % (''.join('1' if fl[k] else '0' for k in names), enc(got + '\n'), enc(want)))
+    model = driver.run_lines(lines)
+    for (got, want, flag, val, where, defaults), m in zip(cases, model):
+        d = '%s%s' % ('+' if val else '-', flag)
+        stmt = '>>> print(%r)' % got
+        if where == 'inline':
+            text = stmt + '  # xdoctest: ' + d + '\n' + want + '\n'
+        else:
+            text = '>>> # xdoctest: ' + d + '\n' + stmt + '\n' + want + '\n'
+        with _w.catch_warnings():
+            _w.simplefilter('ignore')
+            exs = list(core.parse_docstr_examples(text, callname='t', style='freeform', fpath='<verif>', lineno=1))
+        corr.count('e2e:directive-flags')
+        if not exs:
+            corr.unknown += 1
+            continue
+        ex = exs[0]
+        ex.mode = 'native'
+        ex.config['default_runtime_state'] = dict(defaults)
+        try:
+            summary = ex.run(on_error='return', verbose=0)
+            r = '0' if summary['failed'] else '1'
+        except Exception as e:
+            r = 'E:' + type(e).__name__
+        corr.nontriv(('e2e', text, repr(sorted(defaults.items()))))
+        corr.tag('e2e:%s:%s' % (where, r))
+        if r != m:
+            corr.disagree('e2e:directive-flags', {'text': text, 'default_runtime_state': defaults, 'got': got + '\n', 'want': want,
+                                                   'flags': dict(base, **dict(defaults, **{flag: val}))}, m, r)
+
+
+def e2e_hits(corr):
+    """decide e2e disagreements with the independent matching specification"""
+    from ..oracle import checker_spec
+    hits = []
+    for d in corr.disagreements:
+        if d['suite'] != 'e2e:directive-flags' or len(hits) >= 3:
+            continue
+        i = d['input']
+        try:
+            exp = bool(checker_spec.check_output(i['got'], i['want'], **i['flags']))
+        except Exception:
+            continue
+        real = d['impl'] == '1'
+        if real != exp:
+            hits.append({'kind': 'e2e', 'suite': d['suite'], 'input': i, 'expected': exp, 'impl': real,
+                         'why': 'the doctest %s although, with the flags its directives and the default options select, the documented relation says %s' % (
+                             'passes' if real else 'fails', 'match' if exp else 'mismatch')})
+    return hits
+
+
+def replay_e2e(failing):
+    import warnings as _w
+    from xdoctest import core
+    i = failing['input']
+    with _w.catch_warnings():
+        _w.simplefilter('ignore')
+        ex = list(core.parse_docstr_examples(i['text'], callname='t', style='freeform', fpath='<verif>', lineno=1))[0]
+    ex.mode = 'native'
+    ex.config['default_runtime_state'] = dict(i['default_runtime_state'])
+    summary = ex.run(on_error='return', verbose=0)
+    real = not summary['failed']
+    print(i['text'])
+    print('default options %r -> %s, expected %s' % (i['default_runtime_state'], 'passes' if real else 'fails', 'pass' if failing['expected'] else 'fail'))
+    return real != failing['expected']
+
+
 def stateful_failure(got, want, flags_then):
     """independent oracle for the stateful suite: is check_output a function of (got, want, current flags)? looks for a
     flag setting `first` such that checking the pair under `first` and then, on the SAME RuntimeState object, under
@@ -304,6 +397,7 @@ def correspondence(ctx, corr):
     if m != r:
         corr.disagree('default_flags', {}, m, r)
     stateful_reuse(ctx, corr)
+    e2e_inline(ctx, corr)
     # exhaustive token strings
     if ctx.quick:
         plans = [(TOKENS, 2, 32)]
@@ -476,7 +570,7 @@ def _fails(got, want):
 
 
 def search(ctx, corr, broken):
-    found = stateful_hits(corr)
+    found = stateful_hits(corr) + e2e_hits(corr)
     cands = []
     for d in corr.disagreements:
         i = d['input']
@@ -534,6 +628,8 @@ def search(ctx, corr, broken):
 def replay(ctx, failing):
     if failing.get('kind') == 'stateful':
         return replay_stateful(failing)
+    if failing.get('kind') == 'e2e':
+        return replay_e2e(failing)
     i = failing['input']
     fs = list(law_failures(i['got'], i['want']))
     fs = [f for f in fs if classify(ctx, dict(f, input=i)) is None]
